@@ -62,6 +62,10 @@ def gen(rng, tier):
                     yield {"family": "keepalive_max." + proto, "kind": "keepalive_max", "limit": limit, "proto": proto, "pace": pace,
                            "nreq": limit + 3, "tag": n, "seed": rng.randrange(1 << 30),
                            "app_delay": rng.choice([0, 0, 3])}
+                    if proto == "h2" and pace == "burst":
+                        n += 1
+                        yield {"family": "keepalive_max.h2.blocked-flush", "kind": "keepalive_max", "limit": limit, "proto": "h2", "pace": "blocked-flush",
+                               "nreq": limit + 3, "tag": n, "seed": rng.randrange(1 << 30), "app_delay": 0}
                     if proto == "h1":
                         # the application has its own opinion about the connection: the limit is the server's and still holds
                         for hdr in ([b"connection", b"keep-alive"], [b"Connection", b"Keep-Alive"], [b"keep-alive", b"timeout=5, max=1000"]):
@@ -222,6 +226,25 @@ def run_one(case, tally):
                 client.append(["settle"])
                 c = {"config": {"keep_alive_max_requests": lim, "keep_alive_timeout": 5000}, "conn": {}, "apps": {"default": _tag_app(0), "by_tag": by_tag},
                      "client": client, "reactor": {"kind": "h2", "credit": "auto", "skip_h1_101": True}, "sched": {"seed": case["seed"]}, "horizon": 20.0}
+            elif case["pace"] == "blocked-flush":
+                # the request that crosses the limit arrives while an earlier write of the server is held up by a client that is not reading,
+                # and the reader is itself held up (an upload the application is slow to read) before it gets to write anything: the
+                # GOAWAY it owes must survive whatever else is written in between
+                fb = FrameBuilder()
+                pre = client_preface(fb, {})
+                n_pre = lim  # requests answered normally before
+                frames = [fb.headers(1 + 2 * i, [(b":method", b"GET"), (b":scheme", b"http"), (b":path", b"/t%d" % tags[i]), (b":authority", b"h")], end_stream=True)
+                          for i in range(n_pre)]
+                cross_sid, cross_tag = 1 + 2 * n_pre, tags[n_pre]
+                by_tag[str(cross_tag)] = [["wait", "go"], ["recv_until_end"], ["respond", 200, [(b"x-tag", b"%d" % cross_tag)], b"r%d" % cross_tag]]
+                up = fb.headers(cross_sid, [(b":method", b"POST"), (b":scheme", b"http"), (b":path", b"/t%d" % cross_tag), (b":authority", b"h")], end_stream=False)
+                up += b"".join(fb.data(cross_sid, b"u%02d" % j, end_stream=(j == 13)) for j in range(14))
+                client = [["feed", pre]] + [["feed", f] for f in frames[:-1]] + [["pause"], ["feed", frames[-1]], ["settle"], ["feed", up], ["settle"],
+                                                                                     ["resume"], ["settle"], ["trigger", "go"], ["settle"]]
+                c = {"config": {"keep_alive_max_requests": lim, "keep_alive_timeout": 5000}, "conn": {}, "apps": {"default": _tag_app(0), "by_tag": by_tag},
+                     "client": client, "reactor": {"kind": "h2", "credit": "auto"}, "sched": {"seed": case["seed"]}, "horizon": 20.0}
+                tags = tags[:n_pre + 1]
+                nreq = n_pre + 1
             else:
                 fb = FrameBuilder()
                 pre = client_preface(fb, {})
